@@ -48,7 +48,8 @@ class Obligation:
 
 class Path:
 
-    def __init__(self, prefix=()):
+    def __init__(self, prefix=(), name_prefix=''):
+        self.name_prefix = name_prefix
         self.prefix = list(prefix)
         self.taken = []
         self.pending = []
@@ -66,6 +67,7 @@ class Path:
 
     # -- fresh symbols -----------------------------------------------------
     def fresh_name(self, base):
+        base = self.name_prefix + base
         k = self.names.get(base, 0)
         self.names[base] = k + 1
         return base if k == 0 else f'{base}!{k}'
